@@ -134,6 +134,9 @@ func Main(checks map[string]CheckFunc) {
 		}
 		c.Replay = &v
 	}
+	if c.Tier == "quick" {
+		MapOrderAlts = "rev"
+	}
 	c.out = &WorkerOutput{Check: id, Shard: c.Shard}
 	start := time.Now()
 	func() {
